@@ -6,8 +6,12 @@ CONSTANTS
   ResidChoices = {TRUE}
   MaxGenerations = 2
   AsFound_KUndefined = FALSE
+  AsFound_ChainedLagNoSeries = FALSE
+  AsFound_OwnNamesAccepted = FALSE
 INVARIANT TypeOK
 INVARIANT C20_Closed
+INVARIANT C20_LoopStateOwn
+INVARIANT C20_NoNameCapture
 INVARIANT C20_HeaderTimeFirst
 INVARIANT C20_StepAppendsAll
 INVARIANT C20_StepSatisfiesEquations
